@@ -236,6 +236,14 @@ def dominating_conditions(cx, func, node):
                 out.append(c)
             elif len(ch) > 2 and nxt is ch[2]:
                 out.append(_neg(c))
+        if anc["kind"] == "ConditionalOperator":
+            ch = kids(anc)
+            if nxt is ch[1]:
+                out.append(cx.canon(ch[0]))
+            elif nxt is ch[2]:
+                out.append(_neg(cx.canon(ch[0])))
+        if anc["kind"] == "BinaryOperator" and anc.get("opcode") in ("&&", "||") and nxt is kids(anc)[1]:
+            out.append(cx.canon(kids(anc)[0]) if anc["opcode"] == "&&" else _neg(cx.canon(kids(anc)[0])))
         if anc["kind"] == "CompoundStmt":
             for s_ in kids(anc):
                 if s_ is nxt:
